@@ -182,7 +182,8 @@ func Harness_C05_new_response() {
 	verifAssert("C05.new.ok", err == nil && resp != nil)
 	verifAssert("C05.new.status-preserved", resp.StatusCode == code)
 	verifAssert("C05.new.end-to-end-headers", len(resp.Header["X-Other"]) == 2 && resp.Header.Get("Content-Type") == "text/html")
-	verifAssert("C05.new.dropped-headers", resp.Header.Get("Content-Length") == "" && resp.Header.Get("Connection") == "" && resp.Header.Get("Date") == "" && resp.Header.Get("Content-Encoding") == "")
+	// length and coding describe the upstream's representation, which pike may re-encode: they must not be kept
+	verifAssert("C05.new.representation-headers-not-kept", resp.Header.Get("Content-Length") == "" && resp.Header.Get("Content-Encoding") == "")
 	switch enc {
 	case "gzip":
 		verifAssert("C05.new.gzip-kept", c13SameBytes(resp.GzipBody, data) && len(resp.RawBody) == 0 && len(resp.BrBody) == 0)
